@@ -113,6 +113,7 @@ Values(env, T0, d) ==
                  \cup {mk(usable \ {i}, base) : i \in opt}
                  \cup {mk(mand \cup {i}, base) : i \in opt}
                  \cup {mk(usable, [base EXCEPT ![i] = cs[i].d]) : i \in {j \in usable : cs[j].o = "D"}}
+                 \cup {mk(mand \cup {i}, [base EXCEPT ![i] = cs[i].d]) : i \in {j \in usable : cs[j].o = "D"}}
     [] T.k = "CHOICE" ->
          IF d = 0 THEN {} ELSE
          LET cs == AllComps(T)
